@@ -834,7 +834,14 @@ class List(list, base.Symbolic, pg_typing.CustomTyping):
                 path,
             )
         )
-      if self._allow_partial == allow_partial:
+      if (isinstance(value_spec, pg_typing.List)
+          and value_spec != self._value_spec):
+        # The field's spec is compatible but not identical (e.g. narrower
+        # size bounds or element spec): the list is now governed by it, and
+        # its content is validated against it by the standard apply.
+        self._value_spec = value_spec
+        self._allow_partial = allow_partial
+      elif self._allow_partial == allow_partial:
         proceed_with_standard_apply = False
       else:
         self._allow_partial = allow_partial
